@@ -1,6 +1,6 @@
 """Which engines decide which property. Shared by ./check and tools/gen_manifest.py."""
 
-ALL_DRIVERS = ["arith", "cross", "crossx", "prim", "primx"]
+ALL_DRIVERS = ["arith", "cross", "crossx", "prim", "primx", "text"]
 
 COMMON_ASSUMPTIONS = [
     "the reference models (exact integer arithmetic on 384-bit integers, IEEE-754 decode/encode by integer manipulation, exact decimal rationals) are correct; they are self-tested against native arithmetic on exhaustive 8-bit domains",
@@ -23,6 +23,27 @@ PRIM_RULE = ("every compiled layout (90 quick: all 8-bit layouts + boundary frac
              "structured mantissas x both signs, incl. zeros, subnormals, largest finite binade, infinities, NaNs; ")
 
 PROPS = {
+    "C08": {
+        "title": "parsing returns the correctly rounded value of the literal, or a precise error",
+        "stages": [{"driver": "text"}],
+        "rule": ("all 506 layouts x radix {2, 8, 10, 16} x {from_str, saturating_, wrapping_, overflowing_}: (a) every string up to a length bound over reduced "
+                 "token alphabets for the 90 boundary layouts, (b) for every layout the neighbourhood of representable values and rounding ties (all of "
+                 "them for 8-bit layouts, a boundary set otherwise): exact expansion, every prefix class, last digit +-1, a hair above/below the tie at "
+                 "every total digit count around the parser's fast-path budgets, ...999 / ...0001 continuations, leading zeros, signs, integer parts at and "
+                 "far beyond the range, (c) a list of malformed and extreme strings (10000 digits, non-ASCII, NUL); a state is one (layout, radix, string), a "
+                 "transition one parse call compared with exact rational rounding; non-trivial = the string is a well-formed literal"),
+        "assumptions": ["for a malformed string any error other than the overflow error is accepted (the property does not fix precedence among malformed kinds)"],
+    },
+    "C09": {
+        "title": "formatting is faithful: printed digits are the rounded value and round-trip",
+        "stages": [{"driver": "text"}],
+        "rule": ("all 506 layouts: every value of the 8-bit layouts (thorough: 16-bit too), boundary alphabet and values next to round decimals otherwise x "
+                 "{Display, Debug, Binary, Octal, LowerHex, UpperHex} x 16 precisions (none, 0..200): digits compared with the exact expansion rounded half-even "
+                 "at the number of digits printed, exactness for power-of-two radices, Display -> FromStr round trip; and for a fixed value set per layout the "
+                 "full product of 6 traits x {+} x {#} x {0} x 7 alignment/fill x 6 widths x 3 precisions against the padding rule pad(sign ++ prefix ++ body); "
+                 "a state is one (layout, value, format spec), a transition one formatting (or parse-back) call; non-trivial = value not zero"),
+        "assumptions": ["the padding rule is that of core::fmt::Formatter::pad_integral (sign, then prefix, zero flag pads after the prefix and overrides fill/alignment, default right alignment)"],
+    },
     "C03": {
         "title": "comparisons order the exact values across fixed types, integers and floats; Eq/Ord/Hash within a type",
         "stages": [{"driver": "cross"}, {"driver": "prim"}, {"driver": "crossx", "tiers": ["thorough"]}, {"driver": "primx", "tiers": ["thorough"]}],
@@ -63,6 +84,7 @@ PROPS = {
 }
 
 DRIVER_KIND = {
+    "text": "Rust; parsing and formatting of all 506 layouts against exact rational/digit models; runtime-selected format specs through &dyn fmt traits",
     "cross": "Rust; fixed x fixed conversions and comparisons on 2724 compiled layout pairs (crossx: 5952 further pairs, thorough tier)",
     "crossx": "see cross",
     "prim": "Rust; fixed x primitive (12 integers, bool, f32, f64) conversions and comparisons, same-type Ord/Eq/Hash; 90 layouts (primx: the other 416, thorough tier)",
